@@ -3,14 +3,35 @@
 // writeHandshakeRecord, and writes `case => observed` lines for the Lean oracle.
 //
 // Phases (-phase): fb (reassembly buffer through hooks), rx (readHandshake), tx (sender, and
-// sender -> receiver round trip for a PMTU sweep). Without -phase all three run.
+// sender -> receiver round trip for a PMTU sweep), e2e (real handshakes over PMTU pairs). Without
+// -phase all run.
+//
+// Injected clocks (rx: clk=<clock>; e2e: cclk=<clock> sclk=<clock>, absent = the harness default:
+// rx the wall clock, e2e the pinned pki.Now). Config.Time is the documented hook for an external time
+// source; reassembly must not depend on it at all (a pending buffer may only be dropped when REAL time
+// >= the stale timeout, 30 s, passes between two fragments — never inside a case):
+//
+//	w        the wall clock (time.Now), given explicitly
+//	w+N w-N  the wall clock shifted by N seconds (a device whose RTC is wrong and that feeds GPS / NTP
+//	         time into Config.Time, or the other way round), running
+//	p        pinned: always pki.Now (a reproducible "now" for certificate validation; years away from
+//	         the wall clock)
+//	r        running from another epoch: pki.Now + the wall time elapsed since the clock was made
+//	j / jp   a clock that JUMPS: alternately the wall clock / pki.Now and the same + 1 h, call by call
+//
+// In e2e a clock based on the wall clock (w…, j) cannot validate the catalogue's certificates (issued
+// around pki.Now): the client then runs with InsecureSkipVerify and only the ECC suites are used
+// (certificate validation is not C17's subject); p, r, jp keep full validation.
 package main
 
 import (
+	"bufio"
 	"fmt"
 	"net"
+	"os"
 	"strconv"
 	"strings"
+	"sync/atomic"
 	"time"
 
 	"gitee.com/Trisia/gotlcp/dtlcp"
@@ -83,6 +104,44 @@ func b01(b bool) string {
 	return "0"
 }
 
+// clockOf builds the Config.Time of a clock specification ("" = nil: not configured).
+func clockOf(spec string) func() time.Time {
+	switch {
+	case spec == "":
+		return nil
+	case spec == "w":
+		return time.Now
+	case spec == "p":
+		return pki.NowFn
+	case spec == "r":
+		start := time.Now()
+		return func() time.Time { return pki.Now.Add(time.Since(start)) }
+	case spec == "j" || spec == "jp":
+		var n atomic.Int64
+		return func() time.Time {
+			base := time.Now()
+			if spec == "jp" {
+				base = pki.Now
+			}
+			if n.Add(1)%2 == 1 {
+				return base.Add(time.Hour)
+			}
+			return base
+		}
+	case strings.HasPrefix(spec, "w+") || strings.HasPrefix(spec, "w-"):
+		secs, err := strconv.Atoi(spec[1:])
+		if err != nil {
+			panic("bad clock " + spec)
+		}
+		d := time.Duration(secs) * time.Second
+		return func() time.Time { return time.Now().Add(d) }
+	}
+	panic("bad clock " + spec)
+}
+
+// wallBased: the clock cannot validate the catalogue's certificates
+func wallBased(spec string) bool { return strings.HasPrefix(spec, "w") || spec == "j" }
+
 func errKind(err error) string {
 	if err == nil {
 		return "nil"
@@ -106,6 +165,49 @@ func errKind(err error) string {
 		return "pmtu"
 	}
 	return "other"
+}
+
+// lineTrace writes the `case => observed` lines of hx.Trace, but hands every line to the reader at once.
+// A handshake whose fragmented messages never reassemble hangs until the 30 s watchdog; when many do,
+// the phase timeout kills the driver — with a block-buffered trace the lines already produced (the
+// failing ones) were lost and the check could only say "no failing input found".
+type lineTrace struct {
+	w    *bufio.Writer
+	f    *os.File
+	n    int
+	last time.Time
+}
+
+func newLineTrace(path string) *lineTrace {
+	if path == "" {
+		return &lineTrace{w: bufio.NewWriterSize(os.Stdout, 1<<16)}
+	}
+	f, err := os.Create(path)
+	if err != nil {
+		fmt.Fprintln(os.Stderr, err)
+		os.Exit(2)
+	}
+	return &lineTrace{w: bufio.NewWriterSize(f, 1<<16), f: f}
+}
+
+// Line flushes when the case was slow (>= 100 ms: a handshake, a long message) and every 64 lines.
+func (t *lineTrace) Line(desc, observed string) {
+	t.w.WriteString(desc)
+	t.w.WriteString(" => ")
+	t.w.WriteString(observed)
+	t.w.WriteByte('\n')
+	t.n++
+	if now := time.Now(); now.Sub(t.last) >= 100*time.Millisecond || t.n%64 == 0 {
+		t.w.Flush()
+		t.last = now
+	}
+}
+
+func (t *lineTrace) Close() {
+	t.w.Flush()
+	if t.f != nil {
+		t.f.Close()
+	}
 }
 
 // ---------------------------------------------------------------- in-memory PacketConn
@@ -228,7 +330,8 @@ func execRX(desc string) string {
 	var out string
 	p := hx.Guard(func() {
 		q := newQconn()
-		c := dtlcp.VerifNewHandshakeReader(q, q.remote, &dtlcp.Config{})
+		clk, _ := hx.KV(desc, "clk")
+		c := dtlcp.VerifNewHandshakeReader(q, q.remote, &dtlcp.Config{Time: clockOf(clk)})
 		rseq := 0
 		var res []string
 		for _, call := range strings.Split(calls, "/") {
@@ -315,6 +418,9 @@ func execTX(desc string) string {
 	return out
 }
 
+// e2eHangs counts the handshakes that ended in the 30 s watchdog of the pair runner
+var e2eHangs int
+
 var e2eSuite = map[string]uint16{"ecc-gcm": dtlcp.ECC_SM4_GCM_SM3, "ecc-cbc": dtlcp.ECC_SM4_CBC_SM3,
 	"ecdhe-gcm": dtlcp.ECDHE_SM4_GCM_SM3, "ecdhe-cbc": dtlcp.ECDHE_SM4_CBC_SM3}
 
@@ -349,6 +455,16 @@ func execE2E(desc string) string {
 		id := e2eSuite[su]
 		ccfg.CipherSuites, scfg.CipherSuites = []uint16{id}, []uint16{id}
 		ccfg.PMTU, scfg.PMTU = cp, sp
+		if k, ok := hx.KV(desc, "cclk"); ok {
+			ccfg.Time = clockOf(k)
+			ccfg.InsecureSkipVerify = wallBased(k)
+		}
+		if k, ok := hx.KV(desc, "sclk"); ok {
+			scfg.Time = clockOf(k)
+			if wallBased(k) && strings.HasPrefix(su, "ecdhe") {
+				panic("a wall-based server clock cannot validate the client certificate of an ECDHE suite")
+			}
+		}
 		if strings.HasPrefix(su, "ecdhe") {
 			ccfg.Certificates = []dtlcp.Certificate{pair.DCert(std.CliSig), pair.DCert(std.CliEnc)}
 			scfg.ClientAuth = dtlcp.RequireAndVerifyClientCert
@@ -358,6 +474,9 @@ func execE2E(desc string) string {
 		defer ce.Close()
 		defer se.Close()
 		bc, bs := biggest(ce.SentCopy()), biggest(se.SentCopy())
+		if r.TimedOut {
+			e2eHangs++
+		}
 		if !r.OK() {
 			out = fmt.Sprintf("hs=fail bigC=%d bigS=%d", bc, bs)
 			return
@@ -430,7 +549,38 @@ func genE2E(o hx.Opts, emit func(string)) {
 			}
 		}
 	}
+	// injected clocks (Config.Time) skewed against the wall clock, combined with fragmented handshakes:
+	// the same clock configuration at PMTU 1400 (nothing fragmented: the reference) and at small PMTUs
+	// on one or both sides. Every clock on both sides, and each skewed / jumping clock on one side
+	// against the pinned default on the other. Wall-based clocks: ECC suites only (see the header).
+	for _, su := range []string{"ecc-gcm", "ecc-cbc", "ecdhe-gcm", "ecdhe-cbc"} {
+		m := small[su]
+		pm := [][2]int{{1400, 1400}, {200, 200}, {m, m}, {100, 1400}, {1400, 100}}
+		var cl [][2]string
+		if strings.HasPrefix(su, "ecdhe") {
+			pm = pm[:2]
+			cl = [][2]string{{"r", "r"}, {"jp", "jp"}, {"jp", "p"}, {"p", "r"}}
+		} else {
+			for _, k := range e2eClocks {
+				cl = append(cl, [2]string{k, k})
+			}
+			for _, k := range []string{"w+3600", "w-3600", "j", "r"} {
+				cl = append(cl, [2]string{k, "p"}, [2]string{"p", k})
+			}
+		}
+		for _, c := range cl {
+			for _, q := range pm {
+				emit(fmt.Sprintf("kind=e2e suite=%s cp=%d sp=%d cclk=%s sclk=%s", su, q[0], q[1], c[0], c[1]))
+			}
+		}
+	}
 }
+
+// the clocks of the e2e catalogue (both sides the same), and of the unit-level rx catalogue
+var (
+	e2eClocks = []string{"w", "w+3600", "w-3600", "p", "r", "j", "jp"}
+	rxClocks  = []string{"w+3600", "w-3600", "w+31", "w+29", "w-31", "w+86400", "p", "r", "j", "jp"}
+)
 
 func execute(desc string) string {
 	k, _ := hx.KV(desc, "kind")
@@ -711,6 +861,51 @@ func genRX(o hx.Opts, emit func(string)) {
 		}
 		emit("kind=rx msg=@300.2 calls=" + strings.Join(it, "+") + "/-")
 	}
+	// injected clocks (Config.Time skewed against the wall clock, pinned, running from another epoch,
+	// jumping) x the unit-level reassembly cases: reassembly must not depend on the configured clock —
+	// the package's scenarios in one call and spread over calls, the F19 witnesses, two interleaved
+	// message_seqs, a split header, 256 one-byte fragments, a 255-buffer flood followed by a complete message
+	{
+		unit := []string{
+			"msg=@500.1 calls=F.20.500.0.0.200.g+F.20.500.0.200.200.g+F.20.500.0.400.100.g",
+			"msg=@500.1 calls=F.20.500.0.400.100.g/F.20.500.0.200.200.g/F.20.500.0.0.200.g",
+			"msg=@500.1 calls=F.20.500.7.0.200.g+F.20.500.7.200.200.g/-/F.20.500.7.400.100.g/-",
+			"msg=0102030405 calls=F.20.5.0.0.3.g+F.20.3.0.1.2.aabb+F.20.4.0.3.1.g+F.20.5.0.4.1.g",
+			"msg=@20.1 calls=F.20.20.0.0.15.g+F.20.17.0.15.2.g+F.20.18.0.17.0.-+F.20.20.0.17.3.g",
+			"msg=@40.3 calls=F.20.40.0.0.10.g+F.20.40.1.30.10.g+F.20.40.0.10.30.g/F.20.40.1.0.30.g/-",
+			"msg=@40.3 calls=F.20.40.1.20.20.g+F.20.40.0.0.39.g/F.20.40.1.0.20.g+F.20.40.0.39.1.g/-/-",
+			"msg=@10.1 calls=R.140000" + "0a0000000000/R.00000a0102/R.030405060708090a",
+			"msg=@10.1 calls=F.20.10.0.0.5.g+F.20.10.0.11.0.-",
+			"msg=@12.1 calls=F.20.12.7.0.12.g",
+		}
+		for _, k := range rxClocks {
+			for _, u := range unit {
+				emit("kind=rx clk=" + k + " " + u)
+			}
+		}
+		var flood []string
+		for i := 0; i < 255; i++ {
+			flood = append(flood, fitem(20, 2048, i, 0, 0, "-"))
+		}
+		flood = append(flood, fitem(20, 3, 60000, 0, 2, "g"), fitem(20, 3, 60000, 2, 1, "g"))
+		for _, k := range []string{"w+3600", "w-3600", "jp"} {
+			emit("kind=rx clk=" + k + " msg=@256.2 calls=" + strings.Join(fl(256, 256), "+"))
+			emit("kind=rx clk=" + k + " msg=@3.1 calls=" + strings.Join(flood, "+") + "/-")
+		}
+		// every ordered pair of fragments of messages of 1..3 bytes, under a clock ahead and a jumping one
+		for _, k := range []string{"w+3600", "jp"} {
+			for n := 1; n <= 3; n++ {
+				ps := pairs(n)
+				for _, a := range ps {
+					emit(fmt.Sprintf("kind=rx clk=%s msg=@%d.%d calls=%s/-", k, n, n, fitem(20, n, 1, a.off, a.length, "g")))
+					for _, b := range ps {
+						emit(fmt.Sprintf("kind=rx clk=%s msg=@%d.%d calls=%s+%s/-", k, n, n, fitem(20, n, 1, a.off, a.length, "g"), fitem(20, n, 1, b.off, b.length, "g")))
+						emit(fmt.Sprintf("kind=rx clk=%s msg=@%d.%d calls=%s/%s", k, n, n, fitem(20, n, 1, a.off, a.length, "g"), fitem(20, n, 1, b.off, b.length, "g")))
+					}
+				}
+			}
+		}
+	}
 	// exhaustive small: message of length n, every ordered tuple of fragments (depth d)
 	maxN, depth := 4, 3
 	if thorough {
@@ -826,7 +1021,11 @@ func genRX(o hx.Opts, emit func(string)) {
 		for j := 1 + r.Intn(3); j > 0; j-- {
 			calls = append(calls, "-")
 		}
-		emit(fmt.Sprintf("kind=rx msg=@%d.%d calls=%s", n, seed, strings.Join(calls, "/")))
+		clk := ""
+		if r.Chance(33) { // a third of the random streams run under an injected clock
+			clk = "clk=" + hx.Pick(r, rxClocks) + " "
+		}
+		emit(fmt.Sprintf("kind=rx %smsg=@%d.%d calls=%s", clk, n, seed, strings.Join(calls, "/")))
 	}
 }
 
@@ -895,9 +1094,23 @@ func maxInt(a, b int) int {
 
 func main() {
 	o := hx.ParseOpts()
-	tr := hx.NewTrace(o.Out)
+	tr := newLineTrace(o.Out)
 	defer tr.Close()
-	emit := func(desc string) { tr.Line(desc, execute(desc)) }
+	// after maxHangs handshakes that ended in the 30 s watchdog the generator stops: each of them is in the
+	// trace already (in the quick tier none is expected; the thorough tier runs one unworkable PMTU per suite)
+	maxHangs := 3
+	if o.Tier == "thorough" {
+		maxHangs = 8
+	}
+	emit := func(desc string) {
+		if e2eHangs >= maxHangs && o.Replay == "" {
+			return
+		}
+		tr.Line(desc, execute(desc))
+		if e2eHangs == maxHangs && o.Replay == "" {
+			fmt.Fprintf(os.Stderr, "c17: %d handshakes hung until the watchdog; the generator stops here (they are in the trace)\n", e2eHangs)
+		}
+	}
 	if o.Replay != "" {
 		for _, c := range hx.ReplayCases(o.Replay) {
 			emit(c)
